@@ -21,16 +21,18 @@ def configs(tier):
     if tier == 'quick':
         add(spec('sequence', 'rleja', 2, 1, 1), max_paths=40); add(spec('sequence', 'leja', 2, 1, 2), max_paths=25)
         add(spec('global', 'rleja', 2, 1, 1), max_paths=40); add(spec('global', 'clenshaw-curtis', 1, 1, 2), max_paths=25); add(spec('global', 'rleja', 2, 1, 2), max_paths=25)
-        add(spec('localp', 'localp', 1, 1, 2, order=1), max_paths=40); add(spec('localp', 'semi-localp', 2, 1, 1, order=2), max_paths=25); add(spec('localp', 'semi-localp', 1, 1, 2, order=2), single=1, max_paths=130); add(spec('localp', 'localp', 1, 1, 2, order=2), single=1, max_paths=130); add(spec('localp', 'semi-localp', 2, 1, 2, order=2), single=1, seeds=(0, 1), max_paths=30); add(spec('localp', 'localp-boundary', 2, 1, 0, order=1), seeds=(0, 1), max_paths=30); add(spec('localp', 'localp', 2, 2, 1, order=2), max_paths=25)
+        add(spec('localp', 'localp', 1, 1, 2, order=1), max_paths=40); add(spec('localp', 'semi-localp', 2, 1, 1, order=2), max_paths=25); add(spec('localp', 'semi-localp', 1, 1, 2, order=2), single=1, max_paths=130); add(spec('localp', 'localp', 1, 1, 2, order=2), single=1, max_paths=130); add(spec('localp', 'semi-localp', 2, 1, 2, order=2), single=1, seeds=(0, 1), max_paths=30); add(spec('localp', 'localp-boundary', 2, 1, 0, order=1), seeds=(0, 1), max_paths=30); add(spec('localp', 'localp', 2, 2, 1, order=2), max_paths=25); add(spec('localp', 'localp', 2, 2, 1, order=1), single=1, max_paths=25); add(spec('sequence', 'leja', 2, 2, 2), single=1, max_paths=25); add(spec('sequence', 'rleja', 1, 3, 3), single=1, max_paths=25)
         add(spec('localp', 'localp-zero', 1, 1, 2, order=3), max_paths=25); add(spec('localp', 'localp', 1, 1, 2, order=0), max_paths=25)
         add(spec('fourier', 'fourier', 1, 1, 1), max_paths=30); add(spec('fourier', 'fourier', 2, 1, 1), max_paths=15)
         add(spec('wavelet', 'wavelet', 1, 1, 1, order=1), max_paths=20)
     else:
         for rule in SEQUENCE_RULES:
+            add(spec('sequence', rule, 2, 2, 2), single=1, max_paths=120, seeds=(0, 1)); add(spec('sequence', rule, 1, 3, 3), single=1, max_paths=100)
             add(spec('sequence', rule, 2, 1, 1), max_paths=200); add(spec('sequence', rule, 2, 1, 2), single=1, max_paths=200, seeds=(0, 1)); add(spec('sequence', rule, 2, 2, 2), max_paths=150); add(spec('sequence', rule, 2, 1, 3), max_paths=80); add(spec('sequence', rule, 3, 1, 2, limits=2), max_paths=80)
         for rule in ('rleja', 'leja', 'clenshaw-curtis', 'fejer2', 'rleja-odd', 'min-delta', 'rleja-double2', 'gauss-patterson'):
             add(spec('global', rule, 1, 1, 2), max_paths=150); add(spec('global', rule, 2, 1, 1), max_paths=150); add(spec('global', rule, 2, 1, 2), max_paths=100)
         add(spec('global', 'rleja', 2, 1, 3), max_paths=80); add(spec('global', 'rleja', 3, 1, 2), max_paths=80); add(spec('global', 'leja', 2, 2, 2, limits=2), max_paths=80)
+        for rule in LOCAL_RULES: add(spec('localp', rule, 2, 2, 1, order=1), single=1, max_paths=100, seeds=(0, 1)); add(spec('localp', rule, 1, 3, 2, order=2), single=1, max_paths=100)
         for order in (2, 3): add(spec('localp', 'semi-localp', 2, 1, 2, order=order), single=1, seeds=(0, 1, 2, 3), max_paths=120); add(spec('localp', 'semi-localp', 3, 1, 1, order=order), single=1, seeds=(0, 1), max_paths=120); add(spec('localp', 'semi-localp', 2, 2, 2, order=order), seeds=(0, 1), max_paths=80)
         for rule in LOCAL_RULES:
             for order in (0, 1, 2, 3):
